@@ -211,6 +211,29 @@ pub fn panic_sig(p: &str) -> String {
 }
 
 // ---------------------------------------------------------------------------------------------
+// hook H5 (index flush count), per thread
+
+thread_local! {
+    static FLUSH: std::cell::Cell<Option<usize>> = const { std::cell::Cell::new(None) };
+}
+
+/// set the index flush count for library commands started on this thread (threads spawned by a check
+/// hand the value on with `set_flush(parent_value)`)
+pub fn set_flush(n: Option<usize>) {
+    FLUSH.with(|c| c.set(n));
+    rustic_core::verif::set_index_flush_count(n);
+}
+
+pub fn current_flush() -> Option<usize> {
+    FLUSH.with(std::cell::Cell::get)
+}
+
+pub fn flush_for_case(seed: u64, case: u64) -> Option<usize> {
+    let mut r = Rng::new(seed ^ case.wrapping_mul(0x9E37_79B9_7F4A_7C15) ^ 0xF1A5);
+    if r.chance(1, 2) { None } else { Some(*r.pick(&[1usize, 2, 3, 5, 13, 40, 200])) }
+}
+
+// ---------------------------------------------------------------------------------------------
 // parallel case runner
 
 /// run cases 0..n on `ctx.threads` OS threads; each case gets its own rng. A panic escaping a case
@@ -245,7 +268,17 @@ pub fn run_cases(ctx: &Ctx, n: u64, f: &(dyn Fn(&Ctx, u64, &mut Rng, &mut Report
                     }
                     let mut rng = ctx.rng_for_case(i);
                     let mut rep = Report::new();
+                    // hook H5: in half of the cases the indexers of this case write their index file out after a
+                    // handful of blobs, as the real code does whenever 5 minutes have passed (derived from the case
+                    // number alone so that a replay of the case sees the same value)
+                    let fl = flush_for_case(ctx.seed, i + ctx.case_base);
+                    set_flush(fl);
+                    if let Some(n) = fl {
+                        rep.count("cases_with_early_index_flush", 1);
+                        rep.set_add("index_flush_counts", n.to_string());
+                    }
                     let r = catch(|| f(ctx, i, &mut rng, &mut rep));
+                    set_flush(None);
                     if let Err(p) = r {
                         rep.violation(
                             i,
